@@ -22,8 +22,9 @@ ASSUMPTIONS = ["restore_cpgraph always extracts under /tmp; the extracted direct
                "breakdown frames are compared up to row order and dtype"]
 FLOAT_KEYS = ["files"]          # fractional-time-unit workload class (hv/shard.py)
 PLAN = {"quick": {"shards": 16, "cases": 192, "timeout": 900}, "thorough": {"shards": 16, "cases": 2000, "timeout": 3400}}
-FLOORS = {"quick": {"distinct_nontrivial": 60, "cycles": 250, "graphs": 120, "clamped_edge_graphs": 8, "breakdowns_compared": 250, "graphs_with_csv_hostile_names": 30, "batch_restores": 60, "graphs_with_two_equal_weight_maximum_paths": 30},
-          "thorough": {"distinct_nontrivial": 900, "cycles": 4000, "graphs": 1900, "clamped_edge_graphs": 150, "breakdowns_compared": 4000, "graphs_with_csv_hostile_names": 500, "batch_restores": 900, "graphs_with_two_equal_weight_maximum_paths": 400}}
+FLOORS = {"quick": {"distinct_nontrivial": 60, "cycles": 250, "graphs": 120, "clamped_edge_graphs": 8, "breakdowns_compared": 250, "graphs_with_csv_hostile_names": 30, "batch_restores": 60, "graphs_with_two_equal_weight_maximum_paths": 30, "restores_from_a_renamed_archive": 20},
+          "thorough": {"distinct_nontrivial": 900, "cycles": 4000, "graphs": 1900, "clamped_edge_graphs": 150, "breakdowns_compared": 4000, "graphs_with_csv_hostile_names": 500, "batch_restores": 900, "graphs_with_two_equal_weight_maximum_paths": 400, "restores_from_a_renamed_archive": 200,
+                       "graphs_with_more_than_65536_trace_rows": 1}}
 
 
 ODD_NAMES = ["<forward>", "<lambda>", "(anonymous)", "None", "null", "nan", "NA", "N/A", "", "1e5", "0012", "True", " padded "]
@@ -62,6 +63,20 @@ def gen_case(rnd, tier: str, i: Any) -> Dict[str, Any]:
                     break
         c["post_edits"] = edits
     return c
+
+
+def fixed_cases(tier: str):
+    """One window of more than 65536 clipped trace rows (the saved table is larger than any one write buffer / row-id width)."""
+    import random
+    if tier != "thorough":
+        return []                 # the reference expectation over 88000 events takes minutes
+    rnd = random.Random(41)
+    n_steps = 190
+    p = gen_sim.random_params(rnd, "thorough", rank=0, first_step=5, n_steps=n_steps, ops_per_step=(80, 110), max_depth=3, avoid_k1=True,
+                              autograd=False, n_threads=2, base=1000, file_order="time", outer_frame=False)
+    tr, truth = gen_sim.gen_trace_with_truth(rnd, **p)
+    return [{"files": {"rank0.json": tr}, "truth": {"0": truth}, "rank": 0, "zero_weight": False, "win_seed": 41, "inc_last": False, "time_unit": 1,
+             "pre_decode": False, "odd_names": False, "cycles": 1, "force_windows": [("ProfilerStep", (0, n_steps - 2))], "huge": True}]
 
 
 def _bd_rows(bd):  # noqa: ANN001
@@ -154,6 +169,8 @@ def run_case(case: Dict[str, Any], ctx: Any) -> core.CaseResult:
         if A.ok is not True:
             continue
         res.counters["graphs"] += 1
+        if len(g.trace_df) > 65536:
+            res.counters["graphs_with_more_than_65536_trace_rows"] += 1
         if case.get("odd_names"):
             res.counters["graphs_with_csv_hostile_names"] += 1
         if any(d["weight"] != d["object"].weight for _, _, d in g.edges(data=True)):
@@ -208,8 +225,9 @@ def run_case(case: Dict[str, Any], ctx: Any) -> core.CaseResult:
     # ---- several graphs of one session: saved under one directory name in turn, or under names that differ only after a dot
     # and restored after all of them were saved; nothing is tidied up in between (a user does not clean /tmp either)
     if len(batch) == 2 and not res.violations:
-        how = core.rng("c19batch", case["win_seed"]).choice(["same_dir", "dotted", "dotted_version"])
-        names = {"same_dir": ["cp_graph", "cp_graph"], "dotted": ["cp_graph.rank0", "cp_graph.rank1"], "dotted_version": ["run_v1.0", "run_v1.1"]}[how]
+        how = core.rng("c19batch", case["win_seed"]).choice(["same_dir", "dotted", "dotted_version", "renamed", "renamed"])
+        names = {"same_dir": ["cp_graph", "cp_graph"], "dotted": ["cp_graph.rank0", "cp_graph.rank1"], "dotted_version": ["run_v1.0", "run_v1.1"],
+                 "renamed": ["cp_first", "cp_second"]}[how]
         wd = batch[0][0].workdir
         dirs = [os.path.join(wd, "batch", nm) for nm in names]
         zips, ok = [], True
@@ -229,6 +247,17 @@ def run_case(case: Dict[str, Any], ctx: Any) -> core.CaseResult:
                 zips.append(zp)
                 if not ok:
                     break
+            if ok and how == "renamed":
+                # the archive is what a user keeps: it is copied elsewhere under another name (the second one takes the name the
+                # first one had), the directory it was packed from is gone, and it is restored from where it lies now
+                import shutil
+                os.makedirs(os.path.join(wd, "kept"), exist_ok=True)
+                moved = [os.path.join(wd, "kept", "archive of rank 0.zip"), os.path.join(wd, "kept", os.path.basename(zips[0]))]
+                for zp, mv, od in zip(zips, moved, dirs):
+                    shutil.move(zp, mv)
+                    shutil.rmtree(od, ignore_errors=True)
+                zips = moved
+                res.counters["restores_from_a_renamed_archive"] += 2
             if ok:
                 for (A, g, snap, rows0, tag), zp, od in zip(batch, zips, dirs):
                     ok, rg = drv.guard(res, "restore_cpgraph", restore_cpgraph, zp, A.ta.t, A.rank)
